@@ -402,6 +402,22 @@ def process_item(mod, cfg, st, rng, tier):
             elif fkey in KNOWN_KEYS.get(mod.PID, ()):
                 st.notes.append("known finding %s: a boundary model did not survive float replay (not counted)" % fkey[:80])
             else:
+                # the model did not reproduce THIS obligation on plain floats (e.g. the symbolic path ended at a C boundary inside the changed code); the
+                # same concrete run is still an ordinary test of every other obligation: one that fails there is a replayed counterexample in its own right
+                other = []
+                try:
+                    Vc_, Tc_ = concrete_inputs(spec, vals)
+                    names_ = [n_ for n_, _P in mod.props(cfg, Tc_, run_concrete(mod, cfg, Vc_)) if not n_.startswith("canary:") and n_ != name]
+                    other = [n_ for n_ in names_ if eval_prop_concrete(mod, cfg, spec, vals, n_) is False]
+                except (HarnessError, Exception):  # noqa
+                    other = []
+                if other:
+                    for n_ in other:
+                        k_ = mod.finding_key(cfg, n_) if hasattr(mod, "finding_key") else n_
+                        if k_ in KNOWN_KEYS.get(mod.PID, ()):
+                            continue
+                        st.failures.append({"cfg": cfg, "obligation": n_, "vals": vals_to_json(vals), "key": k_, "claim": "(concrete run of the model found for: %s)" % name[:120]})
+                    continue
                 rec["replay"] = repr(verdict)
                 st.unreproduced.append(rec)
         # translator validation on a seeded sample of paths
